@@ -122,7 +122,10 @@ func (c serviceCodec) decodeArguments(method Method, decoder *io.Decoder) (args 
 		decoder.Decode(&args, tag)
 		return args, decoder.Error
 	}
-	count := decoder.ReadInt()
+	count := decoder.ReadCount()
+	if decoder.Error != nil {
+		return nil, decoder.Error
+	}
 	parameters := method.Parameters()
 	paramTypes := make([]reflect.Type, count)
 	if method.Func().Type().IsVariadic() {
@@ -136,7 +139,7 @@ func (c serviceCodec) decodeArguments(method Method, decoder *io.Decoder) (args 
 	}
 	args = make([]interface{}, count)
 	decoder.AddReference(&args)
-	for i := 0; i < count; i++ {
+	for i := 0; i < count && decoder.Error == nil; i++ {
 		args[i] = decoder.Read(paramTypes[i])
 	}
 	decoder.Skip()
